@@ -3,6 +3,7 @@ import Ps3.Model.Viso
 import Ps3.Model.Checked
 import Ps3.Proof.BuildWF
 import Ps3.Spec.Viso
+import Ps3.Spec.IsoTree
 namespace Driver
 open Ps3 Ps3.Viso
 
@@ -99,7 +100,10 @@ def visoOp (args : List String) : String :=
           else "full=skip"
         let obs := runOps img w isPs3 (parseOps ops) 0 []
         let wf := if Spec.Viso.wfB img (contentOf w) then "1" else "0"
-        s!"size={img.totalSize} {fullS} ops={String.intercalate "," obs} valid=ok tree=ok wf={wf} again=same"
+        -- the ECMA-119 reader of Spec/IsoTree.lean walks the model's metadata area; the harness prints the
+        -- same listing from its own Go reader on the implementation's image
+        let rd (j : Bool) := digest (strBytes (Spec.IsoTree.listingOf img.fsBuf j))
+        s!"size={img.totalSize} {fullS} ops={String.intercalate "," obs} valid=ok tree=ok wf={wf} again=same rd={rd false}.{rd true}"
   | _ => "bad-op"
 
 end Driver
